@@ -20,9 +20,7 @@ theorem same_trans {a b c : Conn} (h1 : SameStream a b) (h2 : SameStream b c) : 
 
 theorem emit_same (c : Conn) (e : Ev) : SameStream c (emit c e) := by simp [SameStream, emit]
 theorem setEvents_same (c : Conn) (r w : Bool) : SameStream c (setEvents c r w) := by
-  unfold setEvents; split
-  · split <;> simp [SameStream, emit]
-  · simp [SameStream]
+  simp [SameStream, setEvents]
 theorem enqueue_same (c : Conn) (t : Task) : SameStream c (enqueue c t) := by simp [SameStream, enqueue]
 theorem popWrite_same (c : Conn) : SameStream c (popWrite c) := by
   unfold popWrite; split <;> simp [SameStream]
@@ -125,16 +123,22 @@ theorem sendInLoop_stream (c : Conn) (data : Bytes) (h : StreamInv c) : StreamIn
         have : data = [] := List.eq_nil_of_length_eq_zero (by omega)
         subst this; simpa using h hd
 
+theorem handOff_same (c : Conn) (f : Bool) (d : Dispatch) (t : Task) (g : Conn → Conn)
+    (hg : ∀ c, SameStream c (g c)) : SameStream c (handOff c f d t g) := by
+  unfold handOff; split
+  · exact enqueue_same _ _
+  · exact hg _
+
 theorem afterDrain_same (c : Conn) : SameStream c (afterDrain c) := by
   unfold afterDrain
   simp only
   have h1 := setEvents_same c c.ch.evRead false
   split
   · split
-    · exact same_trans (same_trans h1 (enqueue_same _ _)) (shutdownInLoop_same _)
+    · exact same_trans (same_trans h1 (enqueue_same _ _)) (handOff_same _ _ _ _ _ shutdownInLoop_same)
     · exact same_trans h1 (enqueue_same _ _)
   · split
-    · exact same_trans h1 (shutdownInLoop_same _)
+    · exact same_trans h1 (handOff_same _ _ _ _ _ shutdownInLoop_same)
     · exact h1
 
 theorem handleWriteRes_stream (c : Conn) (r : WriteRes) (h : StreamInv c) : StreamInv (handleWriteRes c r) := by
@@ -156,38 +160,43 @@ theorem handleWrite_stream (c : Conn) (h : StreamInv c) : StreamInv (handleWrite
   · exact handleWriteRes_stream _ _ (StreamInv.of_same (same_trans (popWrite_same _) (emit_same _ _)) h)
   · exact h
 
-theorem actLoop_stream (c : Conn) (a : Act) (h : StreamInv c) : StreamInv (actLoop c a) := by
+theorem startReadInLoop_same (c : Conn) : SameStream c (startReadInLoop c) := by
+  unfold startReadInLoop; split
+  · exact same_trans (setEvents_same c true c.ch.evWrite) ⟨rfl, rfl, rfl, rfl⟩
+  · exact same_refl _
+
+theorem stopReadInLoop_same (c : Conn) : SameStream c (stopReadInLoop c) := by
+  unfold stopReadInLoop; split
+  · exact same_trans (setEvents_same c false c.ch.evWrite) ⟨rfl, rfl, rfl, rfl⟩
+  · exact same_refl _
+
+theorem act_stream (c : Conn) (f : Bool) (a : Act) (h : StreamInv c) : StreamInv (act c f a) := by
   cases a with
-  | send d => simp only [actLoop]; split; exact sendInLoop_stream _ _ h; exact h
+  | send d =>
+    simp only [act]; split
+    · split
+      · exact StreamInv.of_same (enqueue_same _ _) h
+      · exact sendInLoop_stream _ _ h
+    · exact h
   | shutdown =>
-    simp only [actLoop]; split
-    · exact StreamInv.of_same (shutdownInLoop_same _) (StreamInv.of_same ⟨rfl, rfl, rfl, rfl⟩ h)
+    simp only [act]; split
+    · exact StreamInv.of_same (same_trans (a := c) ⟨rfl, rfl, rfl, rfl⟩ (handOff_same _ _ _ _ _ shutdownInLoop_same)) h
     · exact h
   | forceClose =>
-    simp only [actLoop]; split
-    · exact StreamInv.of_same (enqueue_same _ _) (StreamInv.of_same ⟨rfl, rfl, rfl, rfl⟩ h)
+    simp only [act]; split
+    · exact StreamInv.of_same (same_trans (a := c) ⟨rfl, rfl, rfl, rfl⟩ (handOff_same _ _ _ _ _ same_refl)) h
     · exact h
   | forceCloseDelay us =>
-    simp only [actLoop]; split
-    · exact StreamInv.of_same ⟨rfl, rfl, rfl, rfl⟩ h
+    simp only [act]; split
+    · split
+      · exact StreamInv.of_same (same_trans (a := c) ⟨rfl, rfl, rfl, rfl⟩ (enqueue_same _ _)) h
+      · exact StreamInv.of_same ⟨rfl, rfl, rfl, rfl⟩ h
     · exact h
-  | stopRead =>
-    simp only [actLoop]; split
-    · have := setEvents_same c false c.ch.evWrite
-      exact StreamInv.of_same (same_trans this ⟨rfl, rfl, rfl, rfl⟩) h
-    · exact h
-  | startRead =>
-    simp only [actLoop]; split
-    · have := setEvents_same c true c.ch.evWrite
-      exact StreamInv.of_same (same_trans this ⟨rfl, rfl, rfl, rfl⟩) h
-    · exact h
+  | stopRead => simp only [act]; exact StreamInv.of_same (handOff_same _ _ _ _ _ stopReadInLoop_same) h
+  | startRead => simp only [act]; exact StreamInv.of_same (handOff_same _ _ _ _ _ startReadInLoop_same) h
 
-theorem actForeign_stream (c : Conn) (a : Act) (h : StreamInv c) : StreamInv (actForeign c a) := by
-  cases a <;> simp only [actForeign] <;> (try split) <;>
-    first
-    | exact h
-    | exact StreamInv.of_same (enqueue_same _ _) h
-    | exact StreamInv.of_same (enqueue_same _ _) (StreamInv.of_same ⟨rfl, rfl, rfl, rfl⟩ h)
+theorem actLoop_stream (c : Conn) (a : Act) (h : StreamInv c) : StreamInv (actLoop c a) := act_stream c false a h
+theorem actForeign_stream (c : Conn) (a : Act) (h : StreamInv c) : StreamInv (actForeign c a) := act_stream c true a h
 
 theorem callback_stream (c : Conn) (k : Cb) (e : Ev) (h : StreamInv c) : StreamInv (callback c k e) := by
   unfold callback
@@ -221,16 +230,17 @@ theorem handleRead_stream (c : Conn) (h : StreamInv c) : StreamInv (handleRead c
   unfold handleRead
   exact handleReadRes_stream _ _ (StreamInv.of_same (same_trans (popRead_same _) (emit_same _ _)) h)
 
-theorem guarded_stream (f : Conn → Conn) (hf : ∀ c, StreamInv c → StreamInv (f c)) (cond : Prop) [Decidable cond]
-    (c : Conn) (h : StreamInv c) : StreamInv (guarded f cond c) := by
+theorem guarded_stream (f : Conn → Conn) (hf : ∀ c, StreamInv c → StreamInv (f c)) (rev : Prop) [Decidable rev]
+    (sub : Bool → Bool → Bool → Prop) [∀ a b c, Decidable (sub a b c)]
+    (c : Conn) (h : StreamInv c) : StreamInv (guarded f rev sub c) := by
   unfold guarded; split; exact hf _ h; exact h
 
 theorem handleEvent_stream (c : Conn) (r : Nat) (h : StreamInv c) : StreamInv (handleEvent c r) := by
   unfold handleEvent
   split
   · exact h
-  · exact guarded_stream _ handleWrite_stream _ _
-      (guarded_stream _ handleRead_stream _ _ (guarded_stream _ handleClose_stream _ _ h))
+  · exact guarded_stream _ handleWrite_stream _ _ _
+      (guarded_stream _ handleRead_stream _ _ _ (guarded_stream _ handleClose_stream _ _ _ h))
 
 theorem removeChannel_stream (c : Conn) (h : StreamInv c) : StreamInv (removeChannel c) := by
   unfold removeChannel; split
@@ -262,13 +272,13 @@ theorem runTask_stream (c : Conn) (t : Task) (h : StreamInv c) : StreamInv (runT
     · exact StreamInv.of_same (same_trans ⟨rfl, rfl, rfl, rfl⟩ (emit_same _ _)) h
   · cases t with
     | sendInLoop d => exact sendInLoop_stream _ _ h
-    | shutdownInLoop => exact StreamInv.of_same (shutdownInLoop_same _) h
+    | shutdownInLoop _ => exact StreamInv.of_same (shutdownInLoop_same _) h
     | forceCloseInLoop => simp only; split; exact handleClose_stream _ h; exact h
     | connectDestroyed => exact connectDestroyed_stream _ h
     | writeComplete => exact callback_stream _ _ _ h
     | highWater n => exact callback_stream _ _ _ h
-    | startReadInLoop => exact actLoop_stream _ _ h
-    | stopReadInLoop => exact actLoop_stream _ _ h
+    | startReadInLoop => exact StreamInv.of_same (startReadInLoop_same _) h
+    | stopReadInLoop => exact StreamInv.of_same (stopReadInLoop_same _) h
     | addDelayTimer d => exact StreamInv.of_same ⟨rfl, rfl, rfl, rfl⟩ h
 
 theorem maybeDestroy_stream (c : Conn) (h : StreamInv c) : StreamInv (maybeDestroy c) := by
@@ -283,10 +293,15 @@ theorem maybeDestroy_stream (c : Conn) (h : StreamInv c) : StreamInv (maybeDestr
         exact StreamInv.of_same (same_trans (same_trans (a := c) ⟨rfl, rfl, rfl, rfl⟩ h1) h2) h
   · exact h
 
-theorem runBatch_stream (ts : List Task) (c : Conn) (h : StreamInv c) : StreamInv (runBatch c ts) := by
-  induction ts generalizing c with
-  | nil => exact h
-  | cons t rest ih => unfold runBatch; split; exact h; exact ih _ (runTask_stream _ _ h)
+theorem runBatch_stream (n : Nat) (c : Conn) (h : StreamInv c) : StreamInv (runBatch n c) := by
+  induction n generalizing c with
+  | zero => exact h
+  | succ n ih =>
+    unfold runBatch; split
+    · exact h
+    · split
+      · exact h
+      · exact ih _ (runTask_stream _ _ (StreamInv.of_same ⟨rfl, rfl, rfl, rfl⟩ h))
 
 theorem fireN_stream (n : Nat) (c : Conn) (h : StreamInv c) : StreamInv (fireN c n) := by
   induction n generalizing c with
